@@ -354,7 +354,7 @@ func (fr *frame) frameObligations(items []modItem, st0, final *State, rg string,
 					}
 				case *types.Array:
 					for i := 0; i < int(u.Len()) && i < 32; i++ {
-						add(fmt.Sprintf("(ea %s %d)", addr, i), u.Elem())
+						add(vc.ea(addr, fmt.Sprint(i)), u.Elem())
 					}
 				default:
 					c := vc.className(t)
